@@ -172,9 +172,11 @@ def check_case(case, ctx):
         # content read back through the public views just before the operation under test
         s = hist.build_seed(hist.seed_descs(ctx["p"], *ctx["ch"])[case["seed"]], case["build"])
         try:
-            hist.apply(s, case["hist"], {"hp": ctx["p"] - 20})
+            hist.apply(s, case["hist"], {"hp": ctx["p"] - 20}, R)
         except Exception as e:  # noqa: BLE001
             R.outcome = "history_raises:" + type(e).__name__
+            return R
+        if R.viols:
             return R
         d = hist.observe_desc(s)
         if d is None:
